@@ -287,6 +287,23 @@ Definition step_ret (s : mstate) (o : op) : ret := match apply_op o s with ((_, 
 
 Definition run (ops : list op) : mstate := fold_left step ops init.
 
+(* ---- smallest / largest (utils.py) ----
+   `if isinstance(sequence, AbstractSized) and len(sequence) <= n: yield from sequence`, else push everything
+   and `for _ in range(n): if not heap: break; yield heap.pop()`.  Items are (key, id), id = position. *)
+Fixpoint pop_n (n : nat) (h : heap) : list (Z * Z) :=
+  match n with
+  | O => []
+  | S n' => if Z.leb (hn h) 0 then []
+            else match pop h with
+                 | (h', RItem i k, _) => (k, i) :: pop_n n' h'
+                 | _ => []                  (* unreachable: small_model_spec fixes the length *)
+                 end
+  end.
+
+Definition small_model (keys : list Z) (n : Z) : list (Z * Z) :=
+  if Z.leb (Z.of_nat (length keys)) n then kitems 0 keys
+  else pop_n (Z.to_nat n) (sh (run (map Push keys))).
+
 End Model.
 
 (* ---- correspondence: the model replay reproduces every dump exactly ---- *)
@@ -346,3 +363,18 @@ Fixpoint first_bad (lt : Z -> Z -> bool) (s : mstate) (n : nat) (h : list (op * 
       if corr_run lt s [(o, ob)] then first_bad lt (step lt s o) (S n) rest
       else Some (n, step lt s o, step_ret lt s o)
   end.
+
+Definition corr_C16s (c : scase) : bool :=
+  list_eqb pair_eqb (s_out c) (small_model (key_lt (s_max c)) (s_keys c) (s_n c)).
+
+(* the case the model itself produces for a history: its own return values, lengths and dumps *)
+Fixpoint model_obs (lt : Z -> Z -> bool) (s : mstate) (ops : list op) : list (op * obs) :=
+  match ops with
+  | [] => []
+  | o :: rest =>
+      let s' := step lt s o in
+      (o, {| o_ret := step_ret lt s o; o_len := hn (sh s'); o_heap := sh s';
+             o_aux := flat_map (aux_of None) (roots (sh s')) |}) :: model_obs lt s' rest
+  end.
+Definition model_case (mx : bool) (ops : list op) : case :=
+  {| c_max := mx; c_ops := model_obs (key_lt mx) init ops |}.
